@@ -538,6 +538,56 @@ def handleAccess (toks : List (List Char)) : String :=
     | _, _, _, _ => "bad-op"
   | _, _, _, _ => "bad-op"
 
+
+/-! ## the C01 observation of one analysis, computed from the path BEFORE `split_path` -/
+
+/-- node of the path before `split_path`: `bc:ec:<key lengths of the declared units of the requested mode u1+u2+…|->` -/
+def parsePathNode (s : List Char) : Option (Nat × Nat × List Nat) :=
+  match Wire.splitOn ':' s with
+  | [a, b, u] =>
+    match Wire.nat? a, Wire.nat? b, parseUnits u with
+    | some a, some b, some u => some (a, b, u)
+    | _, _, _ => none
+  | _ => none
+
+def showNode (n : NodeRange) : String :=
+  toString n.bc ++ ":" ++ toString n.ec ++ ":" ++ toString n.bb ++ ":" ++ toString n.eb
+
+/-- `C01 part orig=<hex> cur=<hex> m2o=<list> path=<bc:ec:units;…> split=<cur|d6fix>`: what `do_tokenize` does from the
+lattice path on and what the accessors of the result report.  The path is given by CHARACTER ranges (the lattice nodes of
+the best path after the path-rewrite plugins, observed on a mode-C analysis of the same text) with the key lengths of the
+units each word declares for the requested mode; the model computes the byte ranges (`resolve_best_path`: `resultNode`,
+`mod_c2b` of `cur`), runs `split_path` (`splitPath`, `NodeSplitIterator::next` of the probed variant over `mod_b2c`/`mod_c2b`
+of `cur`) and reads every morpheme back through `m2o` (`access`: `begin/end/begin_c/end_c/surface`).
+answer: `ok nodes=<bc:ec:bb:eb;…> acc=<begin:end:begin_c:end_c:sb:se;…> surf=<hex of the concatenated surfaces>`;
+`PANIC <stage>` where the model of the code panics -/
+def handlePart (toks : List (List Char)) : String :=
+  match Wire.kv? toks "orig", Wire.kv? toks "cur", Wire.kv? toks "m2o", Wire.kv? toks "path" with
+  | some o, some c, some m, some ps =>
+    match Wire.hexBytes? o, Wire.hexBytes? c, Wire.natList? m, Wire.allSome ((Wire.items ';' ps).map parsePathNode) with
+    | some orig, some cur, some m2o, some path =>
+      let l := EditM.pairUp cur m2o
+      let tb2c := EditM.b2c cur
+      let tc2b := EditM.c2b cur
+      let v : SplitV := if Wire.kv? toks "split" == some "cur".toList then .cur else .d6fix
+      match mapM (fun (p : Nat × Nat × List Nat) =>
+          match resultNode tc2b ⟨⟨p.1, p.2.1, 0, 0, 0⟩, 0, 0, 0⟩ with
+          | .ok n => (Outcome.ok (n, p.2.2) : Outcome (NodeRange × List Nat))
+          | .err k => .err k
+          | .panic w => .panic w) path with
+      | .ok nodes =>
+        (match splitPath v tb2c tc2b nodes with
+         | .ok ms =>
+           (match mapM (access orig l) ms with
+            | .ok acs =>
+              "ok nodes=" ++ Wire.joinWith ";" (ms.map showNode) ++ " acc=" ++ Wire.joinWith ";" (acs.map (fun a => showAccess (.ok a)))
+                ++ " surf=" ++ EditM.showHex (acs.flatMap (fun a => EditM.slice orig a.sb a.se))
+            | _ => "PANIC access")
+         | _ => "PANIC split")
+      | _ => "PANIC resolve"
+    | _, _, _, _ => "bad-op"
+  | _, _, _, _ => "bad-op"
+
 def handle (op : List Char) (toks : List (List Char)) : String :=
   match String.ofList op with
   | "cost" => handleCost toks
